@@ -17,6 +17,10 @@ CHECKS = {
    text="Programs enumerated by TLC from spec/Gen.tla (optimiser-shaped alphabets: store-then-load pairs, non-adjacent loads, repeated stores, requested slot ids; control and loop alphabets; recursive routines) are compiled under every setting {scratch_slots} x {frame_pointers} x versions 2..10; TLC (differential part of spec/Refine.tla) runs all texts of a recipe on spec/AVM.tla over its context domain and requires equal verdict, return value, logs, writes, inner transactions and user-numbered slots, and - optimised vs unoptimised text of the same version and convention - equal stack snapshots at every routine exit.",
    note="one OptimizeOptions object per setting is reused across compilations (as Router.compile_program does); trusts AVM.tla",
    tech="TLA+ differential check (TLC): product of AVM runs of the same Gen-generated program under all option settings, exit-stack snapshots compared"),
+ "C10": dict(cat="model_checking", ref="5 C10",
+   text="A parameter grid (1..300 live variables x requested-id patterns incl. adjacent runs, 0/255 and duplicates x DynamicScratchVar views x main/subroutine placement x option settings) is enumerated completely; every variable receives a distinct marker and is read back. TLC runs each compiled text on spec/AVM.tla against the cell semantics of spec/PyTealSem.tla (read-back, index(), DynamicScratchVar) and compares all option settings incl. final user-numbered slots (spec/Refine.tla); TLC judges compile outcomes against the slot-limit model of spec/Accepts.tla (spec/Compile.tla).",
+   note="frame-local ABI storage is covered by the ABI checks; the 256 limit is judged on unoptimised compilations only (the optimiser may legitimately remove a variable)",
+   tech="TLA+ refinement + outcome validation (TLC): exhaustive parameter grid of many-variable programs executed on the AVM spec vs cell semantics; slot-limit model"),
  "C16": dict(cat="model_checking", ref="5 C16",
    text="All 35 factor-count combinations of WideRatio are replayed into PyTeal; TLC runs the emitted TEAL on spec/AVM.tla against the big-number meaning of WideRatio in spec/PyTealSem.tla: on a scaled 4-bit-word machine over every factor tuple (small counts) and on the 64-bit machine over boundary values. Exact result or failure, compared by TLC per (program, context).",
    note="trusts BigNat.tla (self-tested against Python integers at setup), the mulw/divmodw/cover/uncover semantics of AVM.tla, soundness of the scaled machine for width-generic code",
